@@ -28,6 +28,8 @@ Trees == {Mk(a, 11, <<>>) : a \in Variants}
          \cup {Mk(a, 11, <<Mk(b, 12, <<>>)>>) : a, b \in Variants}
          \cup {Mk(a, 11, <<Mk(b, 12, <<>>), Mk(c, 13, <<>>)>>) : a, b, c \in Variants}
          \cup {Mk(a, 11, <<Mk(b, 12, <<Mk(c, 13, <<>>)>>)>>) : a, b, c \in Variants}
+         \cup {Mk(a, 11, <<Mk(b, 12, <<>>), Mk(b, 12, <<>>)>>) : a, b \in Variants}        \* two nodes carrying the same id
+         \cup {Mk(a, 11, <<Mk(b, 11, <<>>)>>) : a, b \in Variants}                          \* a child carrying its parent's id
 (* the quantifier of the statement: a child's prefixes include its parent's *)
 Dom(ns) == {ns[i][1] : i \in 1..Len(ns)}
 RECURSIVE NsIncl(_)
